@@ -10,6 +10,14 @@ package jsonparser
 //@ func (*Parser).parseHeader
 //@   requires p.json != nil
 //@   modifies maxmake()
+//@   ghost idres int = 0
+//@   ghost idparsed int = 0
+//@   callsite ParseUint
+//@     requires arg1 == 10 && (arg2 == 31 || arg2 == 0 || arg2 == 64) [C09.dec.numbers.unsigned.decimal]
+//@     updateafter idres = ((arg2 == 31) ? idres : result0)
+//@     updateafter idparsed = idparsed + ((arg2 == 31) ? 0 : 1)
+//@   onstore ID
+//@     requires idparsed == 1 && *value == idres [C09.dec.id.full.uint64.range]
 //@   ensures maxmake() <= max(old(maxmake()), len(data) + 2) [C10.hdr.alloc]
 //@   ensures err == nil ==> header != nil && header.Attachments >= 0 [C10.hdr.att]
 //@   ensures err == nil && header.Type != 5 && header.Type != 6 ==> header.Attachments == 0 [C10.hdr.att.nonbinary]
@@ -68,3 +76,37 @@ package jsonparser
 //@ func convertTypesToValues
 //@   opt safety bounds
 //@   ensures len(values) == len(types) [C10.convert.len]
+
+// ---------------------------------------------------------------------------------------------
+// C09 / C05. The Socket.IO v5 header layout as an order/effect contract of the encoder: the first byte is the type
+// digit; then, iff the type is binary, the decimal attachment count and '-'; then, iff the namespace is neither "" nor
+// "/", the namespace and ','; then, iff there is an ack id, its decimal form (full uint64 range); nothing else before
+// the JSON payload, and nothing of it missing.
+//@ func (*Parser).encodeString
+//@   opt safety off
+//@   requires header != nil && p.json != nil && header.Type <= 6
+//@   ghost stage int = 0
+//@   ghost itoa string = ""
+//@   ghost fmtid string = ""
+//@   ghost payloads int = 0
+//@   callsite Grow skip
+//@   callsite NewEncoder skip
+//@   callsite Bytes skip
+//@   callsite WriteByte skip
+//@     requires stage == 0 && arg0 == 48 + header.Type [C09.enc.type.first]
+//@     update stage = 1
+//@   callsite Itoa
+//@     requires arg0 == header.Attachments [C09.enc.attachments.value]
+//@     updateafter itoa = result
+//@   callsite FormatUint
+//@     requires header.ID != nil && arg0 == *header.ID && arg1 == 10 [C09.enc.id.value]
+//@     updateafter fmtid = result
+//@   callsite WriteString skip
+//@     requires ((stage == 1 && (header.Type == 5 || header.Type == 6)) ? 2 : ((stage <= 2 && stage >= 1 && header.Namespace != "" && header.Namespace != "/") ? 3 : ((stage <= 3 && stage >= 1 && header.ID != nil) ? 4 : 0))) != 0 [C09.enc.header.order]
+//@     requires arg0 == (((stage == 1 && (header.Type == 5 || header.Type == 6)) ? 2 : ((stage <= 2 && header.Namespace != "" && header.Namespace != "/") ? 3 : 4)) == 2 ? itoa + "-" : (((stage == 1 && (header.Type == 5 || header.Type == 6)) ? 2 : ((stage <= 2 && header.Namespace != "" && header.Namespace != "/") ? 3 : 4)) == 3 ? header.Namespace + "," : fmtid)) [C09.enc.header.layout]
+//@     update stage = ((stage == 1 && (header.Type == 5 || header.Type == 6)) ? 2 : ((stage <= 2 && header.Namespace != "" && header.Namespace != "/") ? 3 : 4))
+//@   callsite JSONEncoder.Encode skip
+//@     requires stage == (header.ID != nil ? 4 : ((header.Namespace != "" && header.Namespace != "/") ? 3 : ((header.Type == 5 || header.Type == 6) ? 2 : 1))) && payloads == 0 [C09.enc.header.complete.before.payload]
+//@     update payloads = payloads + 1
+//@   ensures stage == (header.ID != nil ? 4 : ((header.Namespace != "" && header.Namespace != "/") ? 3 : ((header.Type == 5 || header.Type == 6) ? 2 : 1))) [C09.enc.header.complete]
+//@   ensures payloads <= 1 [C09.enc.payload.once]
